@@ -120,7 +120,7 @@ func (h *Handle) List(_ context.Context, list client.ObjectList, opts ...client.
 	if t := h.sim.cur; t != nil {
 		gvk, _ := s.gvkOf(list)
 		gk := schema.GroupKind{Group: gvk.Group, Kind: strings.TrimSuffix(gvk.Kind, "List")}
-		if gk.Kind != "Pod" {
+		{
 			lo := client.ListOptions{}
 			lo.ApplyOptions(opts)
 			for _, k := range h.proc.cache.keys {
